@@ -251,6 +251,8 @@ def arch_homo(ctx, families=None, mean_units=None):
         if ctx.form == "und" or r.random() < 0.3:
             ends.append(ctx.end(ctx.lt(weight=ctx.weight())))
         right = D("")
+    if not closed_right and r.random() < 0.3:
+        ends = [ctx.end(ctx.lt())]  # an end group that is never needed: the chain hands over its only open descriptor
     s = StochAst(left, right, [u], ends, _dist_for(ctx, [u], mean_units, families=families))
     els = [ctx.plain(), s]
     if not closed_right:
@@ -351,6 +353,11 @@ def arch_graft(ctx, families=None, mean_units=None):
     side = ctx.unit([D("<", gid), D(">", gid)])
     ends = [ctx.end(D("<", gid)), ctx.end(ctx.lt())]
     lt = ctx.gt()
+    if r.random() < 0.4:
+        # backbone continues into a suffix: the right terminal reserves the backbone's growing end, grafts are capped
+        rt = ctx.lt()
+        s = StochAst(D(lt.sym, lt.id), D(rt.sym, rt.id), [bb, side], ends, _dist_for(ctx, [bb, side], mean_units, families=families))
+        return MolAst([ctx.plain(), s, ctx.plain()], arch="graft")
     s = StochAst(D(lt.sym, lt.id), D(""), [bb, side], ends, _dist_for(ctx, [bb, side], mean_units, families=families))
     return MolAst([ctx.plain(), s], arch="graft")
 
@@ -359,6 +366,10 @@ def arch_hyper(ctx, families=None, mean_units=None):
     """(9) hyper-branched AB2"""
     u = ctx.unit([ctx.lt(), ctx.gt(), ctx.gt()])
     ends = [ctx.end(ctx.lt()), ctx.end(ctx.gt())]
+    if ctx.rng.random() < 0.35:
+        lt, rt = ctx.gt(), ctx.lt()
+        s = StochAst(D(lt.sym, lt.id), D(rt.sym, rt.id), [u], [ctx.end(ctx.lt())], _dist_for(ctx, [u], mean_units or ctx.rng.choice([1.5, 3, 4]), families=families))
+        return MolAst([ctx.plain(), s, ctx.plain()], arch="hyper")
     s = StochAst(D(""), D(""), [u], ends, _dist_for(ctx, [u], mean_units or ctx.rng.choice([1.5, 3, 4]), families=families))
     return MolAst([s], arch="hyper")
 
